@@ -60,7 +60,16 @@ def histories(draw, tier="quick"):
             prog, meta = draw(gen.programs(profile, uninit_ok=False, max_body=3))
             goals = draw(gen.goals_for(prog, meta, max_goals=3))
             programs.append({"text": L.render_program(prog), "goals": [f"E({pd.monomial_to_str(g)})" for g in goals],
-                             "syms": sorted(L.program_symbols(prog))})
+                             "syms": sorted(L.program_symbols(prog)), "ast": prog})
+    # sibling programs: an edited copy of an earlier generated program (same variable names and condition texts, a different
+    # draw / value set / parameter), as when a user edits a file and analyses it again in the same session
+    gen_idx = [i for i, p in enumerate(programs) if "ast" in p]
+    if gen_idx and draw(st.integers(0, 1)) == 0:
+        src = programs[draw(st.sampled_from(gen_idx))]
+        variant = _variant(draw, src["ast"])
+        if variant is not None:
+            programs.append({"text": L.render_program(variant), "goals": list(src["goals"]), "syms": src["syms"]})
+            nprog += 1
     nsteps = draw(st.integers(3, 5 if tier == "quick" else 14))
     steps = []
     for i in range(nsteps):
@@ -78,6 +87,42 @@ def histories(draw, tier="quick"):
             step = dict(prev, kind="again") if prev["kind"] in ("analyze", "again", "settings") else step
         steps.append(step)
     return {"programs": programs, "steps": steps}
+
+
+def _variant(draw, prog):
+    """copy of prog with one draw / choice widened (changes a finite type but no name and no condition text)"""
+    import copy
+
+    p = copy.deepcopy(prog)
+    sites = []
+
+    def walk(stmts):
+        for s in stmts:
+            if s[0] == "assign" and s[2][0] in ("draw", "choice"):
+                sites.append(s)
+            elif s[0] == "if":
+                for _, b in s[1]:
+                    walk(b)
+                if s[2] is not None:
+                    walk(s[2])
+
+    walk(p["body"])
+    walk(p["init"])
+    if not sites:
+        return None
+    s = draw(st.sampled_from(sites))
+    r = s[2]
+    if r[0] == "draw" and r[1] == "DiscreteUniform":
+        r[2][1] = L.num(Fraction(r[2][1][1]) + 1)
+    elif r[0] == "draw" and r[1] == "Bernoulli":
+        s[2] = ["draw", "Categorical", [L.num("1/3"), L.num("1/3"), L.num("1/3")]]
+    elif r[0] == "draw" and r[1] == "Categorical":
+        s[2] = ["draw", "DiscreteUniform", [L.num(0), L.num(len(r[2]))]]
+    elif r[0] == "choice" and r[1][0][0] == "num":
+        r[1][0] = L.num(Fraction(r[1][0][1]) + 2)
+    else:
+        return None
+    return p
 
 
 def strategy(tier):
